@@ -55,6 +55,22 @@ def _init_worker():
     gc.freeze()
 
 
+def _component_raised(e):
+    """an exception that escaped from the code under test (innermost frame inside the cloudsync package) while the
+    harness drove or observed it is a finding about that code, not a harness failure"""
+    if type(e).__name__ in ("HarnessError", "ReplayDivergence", "NoQuiescence"):
+        return None
+    tb = traceback.extract_tb(e.__traceback__)
+    if not tb:
+        return None
+    last = tb[-1]
+    fn = last.filename.replace("\\", "/")
+    if "/cloudsync/" not in fn or "/cloudsync/tests/" in fn:
+        return None
+    return {"kind": "component-raised", "sig": "%s@%s.%s" % (type(e).__name__, fn.rsplit("/", 1)[-1][:-3], last.name),
+            "detail": {"error": repr(e)[:300], "trace": traceback.format_exc(limit=6)[-1200:]}, "hist": []}
+
+
 def _work(arg):
     modname, job = arg
     t0 = time.perf_counter()
@@ -70,6 +86,9 @@ def _work(arg):
         if type(e).__name__ == "BaseSyncFailed":
             return {"job": job, "states": 1, "transitions": 1, "wall": time.perf_counter() - t0,
                     "violations": [{"kind": "base-sync-failed", "sig": "base", "detail": {"error": str(e)[:400]}, "hist": []}]}
+        v = _component_raised(e)
+        if v is not None:
+            return {"job": job, "states": 1, "transitions": 1, "wall": time.perf_counter() - t0, "violations": [v]}
         return {"job": job, "harness_error": "%s: %s" % (type(e).__name__, e),
                 "trace": traceback.format_exc(limit=12), "wall": time.perf_counter() - t0}
     except BaseException as e:          # harness failure, never a violation
@@ -257,6 +276,7 @@ class Report:
 
 
 def _short_job(job):
-    s = json.dumps({k: job[k] for k in ("cfg", "order", "base", "scripts", "opts") if k in job},
+    s = json.dumps({k: job[k] for k in ("cfg", "order", "base", "scripts", "opts", "phases", "side", "app", "late", "schedule", "starve",
+                                      "kind", "scenario", "params") if k in job},
                    separators=(",", ":"))
     return s if len(s) < 400 else s[:400] + "..."
